@@ -38,6 +38,7 @@ func init() {
 				Repl: map[string]string{"l.TemporalInterval == nil": "ivNone", "l.TemporalInterval != nil": "(!ivNone)", "cert.NotAfter": "t",
 					"l.TemporalInterval.EndExclusive": "limit", "l.TemporalInterval.StartInclusive": "start"}})},
 		{"TemporallyCompatible.shape", temporallyCompatibleShape(lf)},
+		{"Compatible.shape", compatibleShape(lf)},
 		// the log server's window as configured: ValidateLogConfig stores the two timestamps verbatim and refuses limit < start;
 		// setUpLogInfo hands them to the validation options unchanged.
 		{"ValidateLogConfig.windowRefused", condKernel("trillian/ctfe/config.go", "ValidateLogConfig", []string{"NotAfterLimit", "NotAfterStart", "Before"}, "validateLogConfigWindowRefused", "(start limit : Option Int)",
